@@ -86,7 +86,8 @@ Section TextFormat.
   Proof. exact IOFrontProofs.txt_empty_file_rejected. Qed.
 
   Theorem txt_load_is_codec : forall k fl,
-    f_ascii fl = true -> starts_with MAGIC_MAT (fst (read_tag (f_bytes fl))) = false ->
+    f_ascii fl = true -> forallb is_text (fst (read_tag (f_bytes fl))) = true ->
+    starts_with MAGIC_MAT (fst (read_tag (f_bytes fl))) = false ->
     load [FMat; FTxt; FTex; FBin] 1 k fl = txt_decode k (f_lines fl).
   Proof. exact IOFrontProofs.txt_load_is_codec. Qed.
 
